@@ -67,6 +67,9 @@ int64_t carquet_decode_plain_int32(
         return -1;
     }
 
+    if ((uint64_t)count > input_size / 4) {
+        return -1;  /* also rules out count * width overflow */
+    }
     size_t bytes_needed = (size_t)count * 4;
     if (input_size < bytes_needed) {
         return -1;
@@ -94,6 +97,9 @@ int64_t carquet_decode_plain_int64(
         return -1;
     }
 
+    if ((uint64_t)count > input_size / 8) {
+        return -1;  /* also rules out count * width overflow */
+    }
     size_t bytes_needed = (size_t)count * 8;
     if (input_size < bytes_needed) {
         return -1;
@@ -120,6 +126,9 @@ int64_t carquet_decode_plain_int96(
         return -1;
     }
 
+    if ((uint64_t)count > input_size / 12) {
+        return -1;  /* also rules out count * width overflow */
+    }
     size_t bytes_needed = (size_t)count * 12;
     if (input_size < bytes_needed) {
         return -1;
@@ -145,6 +154,9 @@ int64_t carquet_decode_plain_float(
         return -1;
     }
 
+    if ((uint64_t)count > input_size / 4) {
+        return -1;  /* also rules out count * width overflow */
+    }
     size_t bytes_needed = (size_t)count * 4;
     if (input_size < bytes_needed) {
         return -1;
@@ -171,6 +183,9 @@ int64_t carquet_decode_plain_double(
         return -1;
     }
 
+    if ((uint64_t)count > input_size / 8) {
+        return -1;  /* also rules out count * width overflow */
+    }
     size_t bytes_needed = (size_t)count * 8;
     if (input_size < bytes_needed) {
         return -1;
@@ -231,6 +246,9 @@ int64_t carquet_decode_plain_fixed_byte_array(
         return -1;
     }
 
+    if ((uint64_t)count > input_size / (size_t)fixed_len) {
+        return -1;  /* also rules out count * width overflow */
+    }
     size_t bytes_needed = (size_t)count * (size_t)fixed_len;
     if (input_size < bytes_needed) {
         return -1;
